@@ -5,6 +5,7 @@ import Hive.Model.AdsTrieLine
 import Hive.Proofs.AdsConc
 import Hive.Proofs.AdsRealm
 import Hive.Proofs.AdsId
+import Hive.Proofs.AdsTyped
 import Hive.Gen.C09_Skel
 import Hive.Gen.C09_Consts
 /-!
@@ -924,6 +925,59 @@ theorem C09_id_import_through_codec_witness :
   subst h; rfl
 
 end IdCodecs
+
+/-! ## the typed surface (`Hive/Model/AdsTyped.lean`): keys and values through arbitrary round-tripping serializers -/
+
+section Typed
+variable {K V : Type}
+
+/-- **The typed map is a plain map `K → Option V`** for *any* key / value serializers that round-trip
+(`bytesToKey ∘ keyToBytes = id`, `bytesToValue ∘ valueToBytes = id` consuming everything, wherever the encoders
+succeed — whatever the stored form is): after every typed history (reopens at commit points) `Get` answers the value
+last `Set` and not deleted since, `Has` and `Delete` report its presence. -/
+theorem C09_typed_refines [DecidableEq K] (c : Cfg R) (cd : KVCodec K V) (hk : KeyRT cd) (hv : ValRT cd)
+    (ops : List (TyOp K V)) (hc : CleanFrom { c with dec := cd.dec } init (ops.map (encOp cd)))
+    (k : K) (kb : Key) (hkb : cd.kenc k = some kb) :
+    let s := tfinal c cd init ops
+    (tstep c cd s (.get k)).2 = (match tspec cd ops k with | none => .out .notfound | some v => .found v) ∧
+    (tstep c cd s (.has k)).2 = .out (.bool (tspec cd ops k).isSome) ∧
+    (tstep c cd s (.del k)).2 = .out (.deleted (tspec cd ops k).isSome) :=
+  typed_refines c cd hk hv ops hc k kb hkb
+
+/-- **`Stream` on the typed surface** — raw key → `bytesToKey` → `keyToBytes` again → `tree.Get` → `bytesToValue` —
+is, for a round-tripping key serializer, the stream of the sequential model (`C09_stream`) decoded pair by pair: the
+same number of pairs, the same end; it never ends with a key error. -/
+theorem C09_typed_stream (c : Cfg R) (cd : KVCodec K V) (hk : KeyRT cd) (ops : List (TyOp K V)) (n : Nat) :
+    let s := tfinal c cd init ops
+    let rB := streamGo cd.dec s.trie n s.rawKeys []
+    (tstep c cd s (.stream n)).2 = .streamed (rB.1.filterMap (decPair cd)) (liftEnd rB.2) ∧
+    (rB.1.filterMap (decPair cd)).length = rB.1.length := by
+  intro s rB
+  have himg : RawImg cd s.rawKeys := rawImg_final c cd ops init (by intro r hr; simp [init] at hr)
+  have h := tstreamGo_eq cd hk s.trie n s.rawKeys [] [] himg rfl rfl
+  refine ⟨?_, ?_⟩
+  · simp only [tstep, encOp, tout]
+    rw [← h.1, ← h.2.2]
+  · rw [← h.1]; exact h.2.1
+
+/-- **A raw key that does not decode ends `Stream`** with the decoder's error after the pairs before it (a key
+serializer that does not round-trip: outside the property; this is what the code does). -/
+theorem C09_typed_stream_key_decode_error_witness :
+    let cd : KVCodec (List UInt8) (List UInt8) :=
+      { kenc := some, kdec := fun b => if b = [2] then none else some b, venc := some, vdec := fun b => some (b, b.length) }
+    let c : Cfg Unit := { rootOf := fun _ => (), dec := fun _ => .ok }
+    (tstep c cd (tfinal c cd init [.set [1] [7], .set [3] [9], .set [2] [8]]) (.stream 0)).2
+      = .streamed [([1], [7])] .errKeyDec := by
+  rfl
+
+/-- The hypotheses of `C09_typed_refines` are satisfiable: the tag-byte serializers round-trip. -/
+example : let cd : KVCodec (List UInt8) (List UInt8) :=
+      { kenc := fun k => some (0x4B :: k), kdec := fun b => match b with | 0x4B :: k => some k | _ => none,
+        venc := fun v => some (0x56 :: v), vdec := fun b => match b with | 0x56 :: v => some (v, b.length) | _ => none }
+    KeyRT cd ∧ ValRT cd := by
+  refine ⟨?_, ?_⟩ <;> intro a b h <;> simp at h <;> subst h <;> rfl
+
+end Typed
 
 /-! ## the hypotheses are satisfiable; a concrete non-trivial run -/
 
